@@ -23,6 +23,7 @@ KINDS = ["encode", "slice", "ufunc2", "ufunc2_derived", "unary", "scalar", "conc
 FLOOR_TAGS = ["k:" + k for k in KINDS] + ["style:" + s for s in rl.STYLES] + ["kind:b", "kind:i", "kind:u", "kind:f", "dt:float16", "v:nonfinite", "slice:stepped", "slice:unit",
                                                                               "adjacent-inf", "adjacent-nan"]
 FLOOR_MONITORS = ["c14:roundtrip", "c14:canonical", "c14:joined", "c14:decode-independent", "inv:rla"]
+FP_STRICT = True       # a floating-point event inside the library that the dense computation does not have is a violation (shard.FpMonitor)
 N_RANDOM = {"quick": 30000, "thorough": 400000}
 UF2 = ["add", "subtract", "multiply", "maximum", "minimum", "equal", "less", "logical_or", "logical_and", "bitwise_xor", "not_equal"]
 
